@@ -157,7 +157,14 @@ def run(rep, tier, seed):
     rep.broken = []
     rep.compared = 0
     rep.traces = 0
-    instrs, ranges = program()
+    try:
+        instrs, ranges = program()
+    except translators.Unsupported:
+        # the statement order of get_advanced_tokenizer cannot be read (the tie is reported broken by main.py): without the
+        # abstract program there is no trace to validate, and a construct the translator does not know (a lock, say) may block a
+        # thread under the baton-passing scheduler, so no schedule is explored
+        rep.count('schedules_not_explored_program_unreadable')
+        return
     prog = [INSTR[i] for i in instrs]
     cases = []
     for T, text in SETUPS:
